@@ -5,6 +5,7 @@ import (
 	"fmt"
 	"os"
 	"regexp"
+	"runtime"
 	"strconv"
 	"strings"
 	"time"
@@ -159,15 +160,48 @@ func phaseKind(phase string) string {
 
 // ProbeTimed runs the probe under a watchdog; a probe that does not return
 // within the limit although its gas is bounded is a hang.
+//
+// While the probe runs, the LIVE Go heap of the process is sampled (forced
+// collection, then HeapAlloc): everything a transaction allocates is supposed to
+// be charged to the allocator and capped at maxAllocTx, so a live heap that
+// exceeds the cap by a wide margin is memory growth beyond the allocation
+// limit (class crash:mem-growth) — whatever the probe finally returns.
 func (p *Prober) ProbeTimed(src string, gas int64, limit time.Duration) (ProbeResult, bool) {
+	base := liveHeap()
 	ch := make(chan ProbeResult, 1)
 	go func() { ch <- p.Probe(src, gas) }()
-	select {
-	case r := <-ch:
-		return r, true
-	case <-time.After(limit):
-		return ProbeResult{Class: "crash:hang", Phase: "?", Detail: "no result within " + limit.String()}, false
+	deadline := time.After(limit)
+	tick := time.NewTicker(700 * time.Millisecond)
+	defer tick.Stop()
+	var peak uint64
+	for {
+		select {
+		case r := <-ch:
+			return r, true
+		case <-tick.C:
+			if h := liveHeap(); h > base && h-base > peak {
+				peak = h - base
+			}
+			if peak > memGrowthLimit {
+				// do not wait for the machine to eat the box: report and let the caller drop the process
+				return ProbeResult{Class: "crash:mem-growth", Phase: "run",
+					Detail: fmt.Sprintf("live Go heap grew by %d MB during one probe (allocation cap %d MB, gas limit %d)", peak>>20, maxAllocTx>>20, gas)}, false
+			}
+		case <-deadline:
+			return ProbeResult{Class: "crash:hang", Phase: "?", Detail: "no result within " + limit.String()}, false
+		}
 	}
+}
+
+// memGrowthLimit: the allocation cap plus as much again for what the VM keeps
+// outside the allocator (syntax trees, caches, Go slack).
+const memGrowthLimit = 2 * maxAllocTx
+
+func liveHeap() uint64 {
+	runtime.GC()
+	var ms runtime.MemStats
+	runtime.ReadMemStats(&ms)
+	return ms.HeapAlloc
 }
 
 // ---------------------------------------------------------------- pathological sources
